@@ -56,7 +56,7 @@ class C18(core.Check):
         ln = 0
         for _ in range(n):
             k = r.choice(['append'] * 6 + ['append_multiple', 'append_multiple', 'delete', 'delete', 'get', 'slice', 'slice',
-                                            'flush', 'setslice', 'set', 'last', 'past'])
+                                            'flush', 'setslice', 'set', 'last', 'past', 'append_own', 'append_own'])
             wild = malformed and r.random() < 0.3
             lo, hi = (-ln - 3, ln + 3) if wild else (-ln, ln - 1)
 
@@ -64,6 +64,13 @@ class C18(core.Check):
                 return r.randint(lo, hi) if lo <= hi else 0
             if k == 'append':
                 ops.append(('append',))
+                ln += 1
+            elif k == 'append_own':
+                # append one of the array's OWN rows, handed over as the view the array itself returned (a[i], the last
+                # item, a past item): the list keeps the value the row had at that moment
+                if ln == 0:
+                    continue
+                ops.append(('append_own', r.choice(['index', 'last', 'past']), r.randint(-ln, ln - 1)))
                 ln += 1
             elif k == 'append_multiple':
                 m = r.randint(0 if malformed else 1, 4)
@@ -120,6 +127,21 @@ class C18(core.Check):
                     line = 'da append ' + ' '.join(wire(x) for x in row)
                     m.append(row)
                     a.append(np.array(row))
+                elif kind == 'append_own':
+                    how, j = op[1], op[2]
+                    if how == 'last':
+                        view, row = a.get_last_item(), list(m.l[-1])
+                    elif how == 'past':
+                        back = min(max(1, abs(j)), len(m.l) - 1)
+                        if back < 1:
+                            view, row = a.get_last_item(), list(m.l[-1])
+                        else:
+                            view, row = a.get_past_item(back), list(m.l[-1 - back])
+                    else:
+                        view, row = a[j], list(m.l[j])
+                    line = 'da append ' + ' '.join(wire(x) for x in row)
+                    m.append(row)
+                    a.append(view)
                 elif kind == 'append_multiple':
                     rows = [newrow() for _ in range(op[1])]
                     line = f'da append_multiple {len(rows)} ' + ' '.join(wire(x) for rr in rows for x in rr)
